@@ -485,6 +485,10 @@ impl Translator {
             }
         }
 
+        #[cfg(feature = "verif")]
+        if crate::verif::skip_optimizer() {
+            return st;
+        }
         st.lines = optimize(st.lines);
 
         st
@@ -3165,6 +3169,11 @@ impl Translator {
 fn make_label(hint: &str) -> Label {
     if hint.contains(" ") {
         panic!("Label hint cannot contain spaces");
+    }
+    #[cfg(feature = "verif")]
+    if true {
+        let id = crate::verif::next_id(3) as usize;
+        return format!("{hint}__#{id:X}");
     }
     static ID_COUNTER: AtomicUsize = AtomicUsize::new(1);
     let id = ID_COUNTER.fetch_add(1, Ordering::Relaxed);
